@@ -150,7 +150,7 @@ func runC13(t *testing.T, c *choice.Stream, r *Result, opt RunOpt) {
 		e.Sim.DrawStrategy()
 		e.Sim.StallProb = 0 // delays are part of the scenario here, not of the scheduler
 		e.Sim.SetFair()
-		e.Sim.MaxSteps = 400000
+		e.Sim.MaxSteps = 4000000
 		e.W.DeliverMode = c.Weighted("deliver", 3, 1, 2)
 		srv := simnet.NewServer(cf.ServerRev, script)
 		var conn *simnet.Conn
